@@ -550,6 +550,57 @@ func partialMedium(c *Ctx, collect ...string) {
 			}
 		}
 	}
+	// gap family (see gapHists): 21 leaves, an interval deleted, then blocks deleting the neighbours
+	// of the growing gap, then undone block by block down to the first
+	{
+		gapN, gapW, gapDepth := 21, 2, 2
+		gtrs := []uint8{0, 63}
+		if c.Thorough() {
+			gapW, gapDepth = 4, 3
+			gtrs = []uint8{0, 4, 63}
+		}
+		before := len(jobs)
+		var all, evens []int
+		for i := 0; i < gapN; i++ {
+			all = append(all, i)
+			if i%2 == 0 {
+				evens = append(evens, i)
+			}
+		}
+		for _, R := range [][]int{all, evens, {3, gapN - 2}} {
+			for _, h := range gapHists(gapN, gapW, []int{0, 2}, gapDepth, R, true) {
+				for u, nb := 1, len(h); u < nb; u++ {
+					h = append(h, Op{Kind: "undo"})
+				}
+				for _, tr := range gtrs {
+					jobs = append(jobs, job{tr, h})
+				}
+			}
+		}
+		c.Cov.Bound["gap_family"] = fmt.Sprintf("N=%d interval width<=%d, %d neighbour blocks, undone completely; %d histories", gapN, gapW, gapDepth-1, len(jobs)-before)
+		// two-deletion-block family: every [add N][delete S][delete T, add k][undo][undo]
+		tdN := 7
+		if c.Thorough() {
+			tdN = 8
+		}
+		before = len(jobs)
+		var tall, tev []int
+		for i := 0; i < tdN; i++ {
+			tall = append(tall, i)
+			if i%2 == 0 {
+				tev = append(tev, i)
+			}
+		}
+		for _, R := range [][]int{tall, tev} {
+			for _, h := range twoDelHists(tdN, []int{0, 1}, R, true) {
+				h = append(h, Op{Kind: "undo"}, Op{Kind: "undo"})
+				for _, tr := range gtrs {
+					jobs = append(jobs, job{tr, h})
+				}
+			}
+		}
+		c.Cov.Bound["two_deletion_blocks"] = fmt.Sprintf("N=%d, every disjoint non-empty S,T, remember all / even, undone twice; %d histories", tdN, len(jobs)-before)
+	}
 	var steps, evals int64
 	ok := parallelFor(c, len(jobs), func(i int) {
 		fam := &PartialFamily{Nmax: 64, TR: jobs[i].tr, UndoBud: 1, Prop: "C09"}
